@@ -873,16 +873,6 @@ package main
 //@   at after call frt.Destr2#0: F = ret
 //@   at before call strings.Concat#0: V = $1
 
-//@ func faToGo
-//@   trusted
-//@   panics may
-//@ func sliceToGo
-//@   trusted
-//@   panics may
-//@ func lambdaToGo
-//@   trusted
-//@   panics may
-// record literal -> composite literal  Name[targs]{f1: e1, f2: e2}  (fields in the order of the literal)
 //@ func frStructName
 //@   props C03
 //@   ghost M []string
@@ -2860,3 +2850,39 @@ package main
 //@   ensures at-the-end-of-input: result.E0.tkz.current.ttype == New_TokenType_EOF
 //@   ensures live: live(result.E0) && samebuf(result.E0, ps)
 //@   ensures offside-stack-kept: sameoff(result.E0.offsideCol, ps.offsideCol)
+// ---------------------------------------------------------------------------------------------
+// C03, the small expression emitters: field access, slice literal, lambda, the function wrapper of a block
+// ---------------------------------------------------------------------------------------------
+
+//@ func faToGo
+//@   props C03 C11
+//@   panics never
+//@   returns eGo(fa.TargetExpr) + "." + fa.FieldName
+
+//@ func wrapFunc
+//@   props C03
+//@   panics never
+//@   returns "(func () " + toGo(rtype) + " {\n" + goReturnBody + "})"
+
+//@ func wrapFunCall
+//@   props C03
+//@   panics never
+//@   returns "(func () " + toGo(rtype) + " {\n" + goReturnBody + "})()"
+
+//@ func sliceToGo
+//@   props C03 C11
+//@   ghost A []string
+//@   panics may
+//@   ensures text: result == "(" + tGo(exprtype(Expr_ESlice(exprs))) + "{" + join_prefix(A, ",", len(exprs)) + "})"
+//@   ensures elements-in-order: forall k int :: 0 <= k && k < len(exprs) ==> A[k] == eGo(exprs[k])
+//@   at after call slice.Map#0: A = ret
+
+//@ func lambdaToGo
+//@   props C03 C11
+//@   ghost P []string
+//@   ghost RT FType
+//@   panics may
+//@   ensures text: result == "func (" + join_prefix(P, ", ", len(le.Params)) + ")" + go_type(RT) + "{\n" + bToGoRet(le.Body) + "\n}"
+//@   ensures parameters-in-order: forall k int :: 0 <= k && k < len(le.Params) ==> P[k] == le.Params[k].Name + " " + go_type(le.Params[k].Ftype)
+//@   at after call slice.Map#0: P = ret
+//@   at after call blockToType#0: RT = ret
